@@ -122,3 +122,20 @@ CHECKS = {
     },
 }
 NOT_YET = {}
+
+# ---- round-6 additions (appended to the texts above so that the table stays readable)
+_ADD = {
+    "C01": " The repository's own example catalogue (y0.examples, 5-8 node graphs from the literature) is a further family (FileFamily.tla / IDGenFile.tla): its example queries and a seeded sample of its identifiable queries are validated the same way.",
+    "C02": " The query objects are a machine of their own (QueryMachine.tla: exchange_observation_with_action, exchange_action_with_observation, with_treatments, uncondition, expression; action properties Persistent, Conserve, OutcomesKept, invariant ExchInverse model-checked): every TLC-generated transformer sequence (exhaustive to depth 2 over 3 names, seeded walks of depth 5 over 4 names) is replayed through Query and Identification objects and every object created so far is compared with the spec's after every step. The example catalogue (5-8 node graphs) is a further family for the outcome classes (IDGenFile.tla, every query with |X|+|Y| <= 3).",
+    "C03": " The example catalogue (5-8 node graphs) is a further family (IDGenFile.tla, single-variable X, Y, Z queries, seeded sample).",
+    "C04": " Further families: BC5 (SepExtra.tla: the 744 five-node ADMGs around a chain of three bidirected colliders) and the repository's example catalogue (SepFile.tla: seven 5-8 node graphs), both with the design-level invariants checked on them.",
+    "C06": " ID* / IDC*: every estimand returned by id_star / idc_star on every single atom, slices of the pairs and three-world triples over the 3-node ADMGs and two-atom events over seeded 4-node ADMGs must satisfy SingleWorldOnly (CF.tla; TV kind svocab - nothing is evaluated, so the family is wider than the semantic families of C07 / C08).",
+    "C07": " History replay (CFMachine.tla action Grow, action property GrowLocal model-checked): per graph one object without its last edge answers every event, the edge is added in place, every event is asked again and must be answered like an object of the same value and insertion order that has no history.",
+    "C08": " History replay as in C07 (CFMachine.tla Grow): an object that was queried, grown in place by one edge and queried again must answer like an object of the same value without that history.",
+    "C14": " Walks interleave the in-place mutators add_node / add_directed_edge / add_undirected_edge (actions of GraphOps.tla, action property MutatorsGrow) with the operations on ONE live object, so every later observation must be the one of the current value.",
+    "C15": " The enumeration itself is a machine (CIMachine.tla: StartPair / Probe / GiveUp / Finish over the verdict table; invariants Sound, AtMostOne, Exact, TwoSided, Progress, action property Monotone model-checked on all 3-node and all ordered 4-node ADMGs for both readings of the limit). Further families: BC5 (SepExtra.tla) and the example catalogue (SepFile.tla).",
+    "C18": " History replay (CFMachine.tla action Grow, action property GrowLocal - modularity of the model family - model-checked): one object answers every event, is grown in place by one edge and answers again; the answers of the object with a history are validated by TLC like any other record and compared with those of an object without history.",
+    "C20": " Further family: the repository's example catalogue (SepFile.tla, seven 5-8 node graphs).",
+}
+for _k, _v in _ADD.items():
+    CHECKS[_k]["text"] += _v
